@@ -208,6 +208,19 @@ def run(tier):
     for p in files:
         recs.append({"id": "file:" + os.path.relpath(p, core.REPO), "mac": "file", "attr": "", "item": p, "want": ""})
     obs = core.e1_run(recs, "c13-" + tier)
+    # determinism across processes: a second process expands a subset again; digests must agree
+    sub = [r for r in recs if r["mac"] != "file" and (tier == "thorough" or r["id"].count("+") == 0)]
+    if tier == "thorough":
+        sub = sub[::3]
+    obs2 = {o["id"]: o for o in core.e1_run(sub, "c13p2-" + tier)}
+    first = {o["id"]: o for o in obs}
+    for pid, o2 in obs2.items():
+        res.add(transitions=1)
+        o1 = first.get(pid)
+        if o1 is not None and o1.get("digest") != o2.get("digest"):
+            res.violation({"kind": "nondeterministic", "what": "expansion of %s differs between two processes (digests %s vs %s)" % (pid, o1.get("digest"), o2.get("digest")),
+                           "program": src.get(pid), "label": pid})
+    res.parts["cross_process_programs"] = len(obs2)
     n_real = 0
     real_files_with_items = 0
     for o in obs:
